@@ -175,6 +175,11 @@ pub fn step(st: &State, prec: &Prec, ps: &[P]) -> Exp {
             if ps[..i].iter().any(|q| q.acct == p.acct && q.amt.is_none()) {
                 continue;
             }
+            // an assignment standing before it (on any account) may itself be the first fault of the transaction (`= 0` on an
+            // account holding several commodities) or depend on the amount-less posting: nothing is claimed then
+            if ps[..i].iter().any(|q| q.is_assign()) {
+                continue;
+            }
             let mut acc = st.bal.get(p.acct).cloned().unwrap_or_default();
             for q in ps[..=i].iter().filter(|q| q.acct == p.acct) {
                 let (v, c) = q.amt.as_ref().expect("plain amount");
